@@ -1,0 +1,47 @@
+//go:build verif
+
+// Machine-checked contracts of the Container contract (comment-only; read by the
+// verifier in /verif, ignored by every compiler because of the build tag).
+
+package container
+
+/*@
+module authz
+props C03 C16
+use common core
+dialect neovm
+// Authorisation table (C03): one line per exported method with the witness its documentation requires.
+// Checked by the zero-annotation sweep: on every normal exit that changed state (storage write,
+// notification, state-changing call) the formula holds; `safe` methods never change state.
+// alphabet() = 2/3+1 multisig of the chain committee, cmtaddr() = its majority multisig.
+
+witness Update [C03,C16]               : W(cmtaddr())
+witness Put [C03]                      : W(alphabet())
+witness PutMeta [C03]                  : W(alphabet())
+witness PutNamed [C03]                 : W(alphabet())
+witness Delete [C03]                   : W(alphabet())
+witness SetEACL [C03]                  : W(alphabet())
+witness AddNextEpochNodes [C03]        : W(alphabet())
+witness CommitContainerListUpdate [C03]: W(alphabet())
+witness NewEpoch [C03]                 : W(alphabet())
+witness StartContainerEstimation [C03] : W(alphabet())
+witness StopContainerEstimation [C03]  : W(alphabet())
+witness PutContainerSize [C03,C20]     : W(pubKey)
+// documented exception: no witness; gated by VerifyPlacementSignatures (C14), only effect is one notification
+witness SubmitObjectPut [C03]          : true
+safe OnNEP11Payment [C03]
+safe Get [C03]
+safe Owner [C03]
+safe Alias [C03]
+safe Count [C03]
+safe ContainersOf [C03]
+safe List [C03]
+safe VerifyPlacementSignatures [C03]
+safe ReplicasNumbers [C03]
+safe Nodes [C03]
+safe EACL [C03]
+safe GetContainerSize [C03]
+safe IterateContainerSizes [C03]
+safe IterateAllContainerSizes [C03]
+safe Version [C03]
+@*/
